@@ -1,14 +1,37 @@
 package patch
 
-import "github.com/tencent/goom/internal/bytecode/memory"
+import (
+	"syscall"
+
+	"github.com/tencent/goom/internal/bytecode/memory"
+)
 
 // C11: independent mockers and concurrent readers are race-free and isolated (goom's own
 // lock protocol: patchesLock, memoryAccessLock, funcSizeReadLock).
 
-// mprotect(2) succeeds; its arguments are the subject of C14.
-//
+// mprotect(2) succeeds (its arguments are the subject of C14), except on the pages of
+// [vFailLo, vFailHi) when a VC injects a refusal there (EACCES: a read-only file mapping,
+// an execmem policy, the VMA limit).
+var vFailLo, vFailHi uintptr
+
 //verif:stub syscall.Mprotect
-func vStubMprotect(b []byte, prot int) error { return nil }
+func vStubMprotect(b []byte, prot int) error {
+	a := verifSliceAddr(b)
+	if vFailHi != 0 && a < vFailHi && a+uintptr(len(b)) > vFailLo {
+		return syscall.EACCES
+	}
+	return nil
+}
+
+// the raw-syscall fallback of WriteTo sees the same refusal
+//
+//verif:stub syscall.Syscall
+func vStubSyscall(trap, a1, a2, a3 uintptr) (uintptr, uintptr, syscall.Errno) {
+	if trap == syscall.SYS_MPROTECT && vFailHi != 0 && a1 < vFailHi && a1+a2 > vFailLo {
+		return 0, 0, syscall.EACCES
+	}
+	return 0, 0, 0
+}
 
 // a small complete function (standard prologue, body, int3 padding, morestack block)
 var vFnBytes = []byte{
@@ -219,4 +242,56 @@ func VC_C11_remock() {
 		}
 	}
 	verifReached("C11.remock")
+}
+
+
+// VC_C11_fault_isolation: one goroutine's Apply fails (the kernel refuses to make its
+// target's page writable; the caller recovers the panic) while another goroutine mocks and
+// resets a function on another page: the failure stays with the first goroutine - the
+// second one finishes under every interleaving (no lock is left held), its target is
+// restored, and the patch layer is usable afterwards.
+func VC_C11_fault_isolation() {
+	patches = make(map[uintptr]*patch)
+	t0, t1 := vPlaceFn("t0"), vPlaceFn("t1")
+	verifApart(t0, t1, 16384)
+	vFailLo, vFailHi = t0&^4095, (t0&^4095)+8192
+	snap := verifImgSnap()
+	panickedA := false
+	doneB := false
+	verifSpawn(func() {
+		g, err := PtrTrampoline(t0, vC11ReplA, nil)
+		if err != nil {
+			return
+		}
+		defer func() {
+			if r := recover(); r != nil {
+				panickedA = true
+			}
+		}()
+		g.Apply()
+	})
+	verifSpawn(func() {
+		g, err := PtrTrampoline(t1, vC11ReplB, nil)
+		if err == nil {
+			g.Apply()
+			g.UnpatchWithLock()
+		}
+		doneB = true
+	})
+	verifJoin()
+	verifAssert(panickedA, "C11.fault.refusal-surfaces-to-its-own-caller")
+	verifAssert(doneB, "C11.fault.other-builder-finishes")
+	for k := 0; k < 13; k++ {
+		verifAssert(verifImgLoad(t1+uintptr(k)) == verifImgAt(snap, t1+uintptr(k)), "C11.fault.other-target-restored")
+		verifAssert(verifImgLoad(t0+uintptr(k)) == verifImgAt(snap, t0+uintptr(k)), "C11.fault.failed-target-unchanged")
+	}
+	// the patch layer is still usable
+	g, err := PtrTrampoline(t1, vC11ReplA, nil)
+	verifAssert(err == nil, "C11.fault.usable-afterwards")
+	if err == nil {
+		g.Apply()
+		g.UnpatchWithLock()
+	}
+	vFailLo, vFailHi = 0, 0
+	verifReached("C11.fault")
 }
